@@ -294,6 +294,54 @@ def run(ctx):
                        "waiter asleep on a satisfied condition" % (full, partial or "none"))
 
     # ---------------------------------------------------------------- W3
+    # ---------------------------------------------------------------- W8
+    ctx.rule("W8", "registration replaces: a single-waker slot (Option<Waker>) is overwritten with the current task's waker on every "
+                   "pending poll — never filled only when empty (get_or_insert*, `if slot.is_none()`): a stale waker left by a "
+                   "cancelled future would otherwise shadow the task that is really waiting")
+    singles = {k: v for k, v in slots.items() if k not in MULTI and not v["composite"] and v["ty"].replace(" ", "").startswith("core::option::Option<core::task::wake::Waker")}
+    ctx.floor("W8", "single-waker slots (Option<Waker>)", len(singles), 10)
+    nst = 0
+    for b in prog.bodies.values():
+        if b.crate in SKIP_CRATES or b.kind in ("const", "promoted"):
+            continue
+        for i, t in b.calls():
+            n_ = callee(t)
+            if re.search(r"option::Option(<.*>|::<.*>)?::(get_or_insert_with|get_or_insert)$", n_) and t["args"]:
+                hs = slot_hits(singles, b, deep_places(b, t["args"][0], 3))
+                for k in sorted(hs):
+                    nst += 1
+                    ctx.touch(b)
+                    ctx.ob("W8", "%s.%s|%s registers by replacing" % (k[0], k[1], b.short), False, b.where(t["line"]),
+                           "`%s` keeps a waker that is already parked: after a waiter's future is dropped (select!, timeout, move to "
+                           "another task) the next waiter goes Pending without being registered and the notifier wakes the dead one"
+                           % n_.split("::")[-1])
+        # direct stores  slot = Some(waker)  that run only when the slot was tested empty
+        for (i, j, pl, rv, line) in b.assigns():
+            hs = slot_hits(singles, b, [pl])
+            if not hs:
+                continue
+            is_some = False
+            if rv[0] == "agg" and rv[1].get("variant") == "Some":
+                is_some = True
+            src = op_place(rv[1]) if rv[0] == "use" else None
+            if src is not None and len(src) == 1:
+                for (bb, jj, rv2) in b.defs_of(src[0]):
+                    if jj != "term" and rv2[0] == "agg" and rv2[1].get("variant") == "Some":
+                        is_some = True
+            if not is_some:
+                continue
+            only_empty = False
+            for ci, ct in b.calls():
+                m_ = re.search(r"option::Option(<.*>|::<.*>)?::(is_none|is_some)$", callee(ct))
+                if m_ and ct["args"] and len(ct["dest"]) == 1 and slot_hits(singles, b, deep_places(b, ct["args"][0], 3)) & hs:
+                    if runs_only_when(b, ct["dest"][0], m_.group(2) == "is_none", i):
+                        only_empty = True
+            for k in sorted(hs):
+                nst += 1
+                ctx.touch(b)
+                ctx.ob("W8", "%s.%s|%s registers by replacing" % (k[0], k[1], b.short), not only_empty, b.where(line),
+                       "store runs only when the slot was found empty: %s" % only_empty)
+    ctx.floor("W8", "single-slot registration sites examined", nst, 12)
     ctx.rule("W3", "check and registration in one critical section: every function that stores into or wakes a slot either has "
                    "exclusive access to the state (`&mut self` / `Pin<&mut Self>`) or takes the state's lock exactly once, "
                    "before touching the slot")
